@@ -107,7 +107,7 @@ ParseSpksR(alg, b, off, remaining) ==
 ParseHssSig(alg, b) ==
     IF Len(b) < 4 THEN NoParse
     ELSE LET nspk == DecU32(Slice(b, 0, 4))
-         IN  IF nspk = Huge \/ nspk + 1 > MaxLevels THEN NoParse
+         IN  IF nspk = Huge \/ nspk >= MaxLevels THEN NoParse      \* (not nspk + 1: 0x7fffffff + 1 overflows TLC's integers)
              ELSE LET spks == ParseSpksR(alg, b, 4, nspk)
                   IN  IF ~spks.ok THEN NoParse
                       ELSE LET last == ParseLmsSigAt(alg, b, spks.off)
